@@ -264,19 +264,14 @@ func runProgram(p *program, recorded bool) *history {
 	if pk {
 		h.QuietC, h.Quiet = "panic:"+mon.PanicClass(v), fmt.Sprintf("VerifSnapshot panicked: %v at %s", v, mon.TopLibFrame(stk))
 	} else {
-		h.QuietC, h.Quiet = judgeInvariantsOnly(snap)
+		h.QuietC, h.Quiet = judgeInvariantsOnly(snap, p.NNames)
 	}
 	return h
 }
 
-func judgeInvariantsOnly(snap map[string]nbtns.NameRecord) (string, string) {
+func judgeInvariantsOnly(snap map[string]nbtns.NameRecord, nNames int) (string, string) {
 	// model agreement is porcupine's job here; only the model-free invariants apply
-	st := []rec{}
-	cls, what := judgeSnapshot(snap, st)
-	if cls == "presence" {
-		return "", ""
-	}
-	return cls, what
+	return judgeSnapshot(snap, nil, nNames)
 }
 
 // ---------------------------------------------------------------------------------
